@@ -204,6 +204,73 @@ def gaussRepairedP (a bc : Nat) (out : Option Nat) (naxes : Nat) (s : St) : R Na
   (gaussLoop bc naxes o none (write o (s.val a) s)).bind fun r s =>
   if r ≠ o then .ok o (write o (s.val r) s) else .ok o s
 
+/-! ### Round 2: the wrappers repaired after the first report -/
+
+/-- `convolve1d(f, weights, axis, out)` as repaired (e068ee1). Fast path (`f` C-contiguous and the kernel shorter than
+the axis): `out = _get_output(f, out, 'convolve1d')` validates against **`f` itself** (not the reshaped 2-D view);
+along the last axis the native kernel writes straight into `out.reshape(rows)` (the same buffer); along any other
+axis it writes a temporary of the transposed shape and `out[...] = tmp.reshape(tshape).transpose(rindices)` copies it
+back. Otherwise `return convolve(f, weights[…], out=out)`. -/
+def convolve1dP (f w : Nat) (out : Option Nat) (fast lastAxis : Bool) (s : St) : R Nat :=
+  if fast then
+    (getOut f out none s).bind fun o s =>
+      if lastAxis then .ok o (write o (.ap .kernel (s.val f) (s.val w)) s)
+      else
+        (alloc (s.desc f) .undef s).bind fun tmp s =>
+          let s := write tmp (.ap .kernel (s.val f) (s.val w)) s
+          .ok o (write o (s.val tmp) s)
+  else kernel1 .kernel f w out none s
+
+/-- the deprecated alias as `_get_output(array, out, fname, dtype, output)` resolves it:
+`if output is not None: if out is not None: (ignore output) else: out = output` -/
+def resolveAlias (out output : Option Nat) : Option Nat :=
+  match out with
+  | some o => some o
+  | none => output
+
+/-- `open(f, Bc, out, output)` as repaired (399d97f): `eroded = erode(f, Bc, out=out, output=output)` -/
+def openAliasP (f bc : Nat) (out output : Option Nat) : St → R Nat := openP f bc (resolveAlias out output)
+
+/-- `close(f, Bc, out, output)` as repaired -/
+def closeAliasP (f bc : Nat) (out output : Option Nat) : St → R Nat := closeP f bc (resolveAlias out output)
+
+/-- what `interpolate.zoom` looks at in a supplied `out` -/
+structure ZOut where
+  desc : Desc
+  isArray : Bool        -- `isinstance(out, np.ndarray)`
+  writeable : Bool      -- `out.flags.writeable`
+deriving DecidableEq, Repr
+
+inductive ZDecision
+  | fresh           -- `np.empty(output_shape, array.dtype)`
+  | direct          -- the kernel writes `out` itself
+  | viaTemp         -- other dtype: the kernel writes a float temporary, then `o_out[:] = out[:]`
+  | valueError
+deriving DecidableEq, Repr
+
+/-- `zoom`'s own validation as repaired (1873bd9): `out` fixes shape *and* dtype; it must be an array of the input's
+rank, C-contiguous and writeable — anything else is a `ValueError` raised before the native code runs -/
+def zoomDecision (array : Desc) (out : Option ZOut) : ZDecision :=
+  match out with
+  | none => .fresh
+  | some o =>
+    if !o.isArray || o.desc.shape.length ≠ array.shape.length then .valueError
+    else if !(o.desc.ccontig && o.writeable) then .valueError
+    else if o.desc.dtype ≠ array.dtype then .viaTemp else .direct
+
+/-- the buffer flow of `zoom` (`oshape`: the shape computed from the zoom factor when no `out` is given) -/
+def zoomP (a : Nat) (out : Option Nat) (zo : Option ZOut) (oshape : List Nat) (s : St) : R Nat :=
+  match zoomDecision (s.desc a) zo, out with
+  | .fresh, _ =>
+    (alloc { dtype := (s.desc a).dtype, shape := oshape, ccontig := true } .undef s).bind fun o s =>
+      .ok o (write o (.ap .kernel (s.val a) (s.val a)) s)
+  | .direct, some o => .ok o (write o (.ap .kernel (s.val a) (s.val a)) s)
+  | .viaTemp, some o =>
+    (alloc { dtype := (s.desc a).dtype, shape := (s.desc o).shape, ccontig := true } .undef s).bind fun tmp s =>
+      let s := write tmp (.ap .kernel (s.val a) (s.val a)) s
+      .ok o (write o (s.val tmp) s)
+  | _, _ => .raise .contig s
+
 /-! ### initial states -/
 
 /-- heap at call time: inputs `0 … k-1` (content `inp i`), then the user's `out` (content `old`) -/
@@ -260,6 +327,15 @@ def handle (a : Args) : String :=
     | "tophat_open" => showR two out (tophatOpenP 0 1 (outId two out) (initSt two out))
     | "gaussian_pinned" => showR two out (gaussPinnedP 0 1 (outId two out) arr.shape.length (initSt two out))
     | "gaussian" => showR two out (gaussRepairedP 0 1 (outId two out) arr.shape.length (initSt two out))
+    | "gaussian1d" => showR two out (gauss1dP 0 1 (outId two out) (initSt two out))
+    | "convolve1d" =>
+      showR two out (convolve1dP 0 1 (outId two out) (a.nat "fast" == 1) (a.nat "last" == 1) (initSt two out))
+    | "open_alias" => showR two out (openAliasP 0 1 none (outId two out) (initSt two out))
+    | "close_alias" => showR two out (closeAliasP 0 1 none (outId two out) (initSt two out))
+    | "zoom" =>
+      let one := [arr]
+      let zo : Option ZOut := out.map fun o => { desc := o, isArray := true, writeable := a.nat "owrite" == 1 }
+      s!"dec={reprStr (zoomDecision arr zo)} {showR one out (zoomP 0 (outId one out) zo (a.nats "zshape") (initSt one out))}".replace "Mahotas.C09.ZDecision." ""
     | f => s!"error=unknown-flow-{f}"
   | k => s!"error=unknown-kind-{k}"
 
